@@ -244,6 +244,9 @@ func (e *Engine) callWrites(fn *ssa.Function, call *ssa.CallCommon, set map[stri
 	if call.IsInvoke() {
 		key := ifaceKey(e, call)
 		if _, ok := ifaceModels[key]; ok {
+			for _, w := range ifaceModelWrites[key] {
+				set[w] = true
+			}
 			return
 		}
 		e.callOutWrites(key, set)
@@ -361,6 +364,9 @@ func (e *Engine) modelWrites(f *ssa.Function, call *ssa.CallCommon, set map[stri
 		set["H|*"] = true
 	case "runtime.ReadMemStats":
 		set["H|runtime.MemStats|*"] = true
+	case "hash/fnv.New64":
+		set[hstName] = true
+		set[allocName] = true
 	case "(*encoding/gob.Decoder).Decode":
 		set["G|gob|pos"] = true
 		set["H|TraitEntry|*"] = true
